@@ -36,6 +36,31 @@ B(ch) == CASE ch = "0" -> 48 [] ch = "1" -> 49 [] ch = "2" -> 50 [] ch = "3" -> 
            [] ch = "-" -> 45 [] ch = "+" -> 43 [] ch = "." -> 46 [] ch = "e" -> 101 [] ch = "E" -> 69
 Lit(cs) == [i \in 1..Len(cs) |-> B(cs[i])] \o <<>>
 
+\* integer literals far outside +/-(2^53-1), around the points where a 64-bit integer parse saturates or wraps:
+\* 2^63-1  2^63  2^64-1  2^64  2^64+1  2^64+2^53-1  2^64+2^53  2^65  30 digits  -2^63  -2^63-1  -(2^64-1)  -2^64  -(2^64+1)  -(2^64+2^53-1)  -2^65
+\* (all are integer literals, out of range: refused by the enforced variant, preserved verbatim otherwise)
+Dec(ds) == [i \in 1..Len(ds) |-> 48 + ds[i]] \o <<>>
+NegDec(ds) == <<45>> \o Dec(ds)
+WideLits == {
+  Dec(<<9,2,2,3,3,7,2,0,3,6,8,5,4,7,7,5,8,0,7>>),
+  Dec(<<9,2,2,3,3,7,2,0,3,6,8,5,4,7,7,5,8,0,8>>),
+  Dec(<<1,8,4,4,6,7,4,4,0,7,3,7,0,9,5,5,1,6,1,5>>),
+  Dec(<<1,8,4,4,6,7,4,4,0,7,3,7,0,9,5,5,1,6,1,6>>),
+  Dec(<<1,8,4,4,6,7,4,4,0,7,3,7,0,9,5,5,1,6,1,7>>),
+  Dec(<<1,8,4,5,5,7,5,1,2,7,2,9,6,4,2,9,2,6,0,7>>),
+  Dec(<<1,8,4,5,5,7,5,1,2,7,2,9,6,4,2,9,2,6,0,8>>),
+  Dec(<<3,6,8,9,3,4,8,8,1,4,7,4,1,9,1,0,3,2,3,2>>),
+  Dec(<<1,2,3,4,5,6,7,8,9,0,1,2,3,4,5,6,7,8,9,0,1,2,3,4,5,6,7,8,9,0>>),
+  NegDec(<<9,2,2,3,3,7,2,0,3,6,8,5,4,7,7,5,8,0,8>>),
+  NegDec(<<9,2,2,3,3,7,2,0,3,6,8,5,4,7,7,5,8,0,9>>),
+  NegDec(<<1,8,4,4,6,7,4,4,0,7,3,7,0,9,5,5,1,6,1,5>>),
+  NegDec(<<1,8,4,4,6,7,4,4,0,7,3,7,0,9,5,5,1,6,1,6>>),
+  NegDec(<<1,8,4,4,6,7,4,4,0,7,3,7,0,9,5,5,1,6,1,7>>),
+  NegDec(<<1,8,4,5,5,7,5,1,2,7,2,9,6,4,2,9,2,6,0,7>>),
+  NegDec(<<3,6,8,9,3,4,8,8,1,4,7,4,1,9,1,0,3,2,3,2>>) }
+
+ASSUME \A l \in WideLits : IsIntLit(l) /\ ~InRange(l) /\ ~NumAdmissible(l)
+
 MaxSafeLit == <<"9","0","0","7","1","9","9","2","5","4","7","4","0","9","9","1">>
 OverLit    == <<"9","0","0","7","1","9","9","2","5","4","7","4","0","9","9","2">>
 Lits == {
@@ -49,7 +74,7 @@ Lits == {
   Lit(<<"1","e","-","0","5">>), Lit(<<"-","1","e","-","0","5">>), Lit(<<"0","e","1">>), Lit(<<"0","E","0">>),
   Lit(<<"1",".","5","e","3","0","0">>), Lit(<<"1","e","4","0","0">>), Lit(<<"0",".","1","e","1">>),
   Lit(<<"1",".","0","E","+","2">>), Lit(<<"1","0",".","0","1">>), Lit(<<"-","2",".","5","e","-","0">>),
-  Lit(<<"2","0">>), Lit(<<"-","0",".","0","5">>) }
+  Lit(<<"2","0">>), Lit(<<"-","0",".","0","5">>) } \cup WideLits
 One == VNum(<<49>>)
 Two == VNum(<<50>>)
 Three == VNum(<<51>>)
